@@ -163,6 +163,10 @@ def generate(rng, size="small"):
         if extra:
             g.undefined_force = [rng.choice(extra)]
     g.by_obj = by_obj
+    # crtend-style object: its .eh_frame is just a 4-byte zero terminator. Placed anywhere on the
+    # command line (after object `term_after`), so FDE-bearing objects may follow it.
+    g.term_after = rng.randrange(nobj) if rng.random() < 0.35 else None
+    g.params["term_after"] = g.term_after
     return g
 
 
@@ -339,6 +343,14 @@ def emit(g, workdir):
         obj = os.path.join(workdir, f"o{o}.o")
         assemble(src, obj)
         paths.append(obj)
+        if getattr(g, "term_after", None) == o:
+            tsrc = os.path.join(workdir, "term.s")
+            with open(tsrc, "w") as f:
+                f.write('\t.section .eh_frame,"a",@progbits\n\t.long 0\n'
+                        '\t.section .note.GNU-stack,"",@progbits\n')
+            tobj = os.path.join(workdir, "term.o")
+            assemble(tsrc, tobj)
+            paths.append(tobj)
     # runtime object
     out = []
     out.append('\t.section .text._start,"ax",@progbits')
